@@ -199,6 +199,18 @@ CHECKS = {
              "user stacks whose top is not 16-byte aligned, with no stream ever switching to a context that was still "
              "running or unsaved",
         ref="DESIGN.md §5 C02"),
+    "C18": dict(
+        technique="runtime fault injection with monitors: link-time wrappers fail the k-th allocation-class call of the calling "
+                  "thread for every k reached by ~95 creating/initialising call scenarios under 6 memory configurations; "
+                  "oracles on return code, output handles (untouched or NULL handle), before/after snapshot of the "
+                  "pre-existing objects, retry, use of the created object, follow-up workload, allocation ledger after "
+                  "ABT_finalize; ASan/LSan on the same enumeration",
+        category="exploration",
+        text="held on the enumeration performed: every allocation-class call made by the calling thread inside the listed "
+             "routines was failed once (several hundred sites per memory configuration) and the call failed cleanly, "
+             "handed back no handle, left the world unchanged, succeeded on retry and leaked nothing; one listed finding "
+             "(partial creation by the deprecated ABT_thread_create_many)",
+        ref="DESIGN.md §5 C18"),
 }
 
 
